@@ -166,6 +166,9 @@ class Point:
 
         # Case 3: self.x == other.x, self.y == other.y
         else:
+            # the tangent at a point with y == 0 is vertical: the result is the point at infinity
+            if self.y == 0 * self.x:
+                return self.__class__(None, None, self.a, self.b)
             # Formula (x3,y3)=(x1,y1)+(x1,y1)
             # s=(3*x1**2+a)/(2*y1)
             s = (3 * self.x**2 + self.a) / (2 * self.y)
